@@ -31,7 +31,24 @@ class Fact:
         self.ok, self.node, self.good, self.bad = ok, node, good, bad
 
 
+def refuse_compensation(mapb):
+    """The rules about the scan read it as "test, then enter into the index".  A scan that enters every block first and takes
+    the last one back after the loop (`del self._toc[last]`, `self._toc.pop(last)`, putting a displaced entry back) can be right
+    or wrong depending on what exactly it restores - that is not decided here, and it must not be mistaken for "no test"."""
+    loops = [s for s in mapb.node.body if isinstance(s, (ast.While, ast.For))]
+    if len(loops) != 1:
+        return
+    after = mapb.node.body[mapb.node.body.index(loops[0]) + 1:]
+    for s in after:
+        for n in ast.walk(s):
+            if (isinstance(n, ast.Delete) and any(norm(t).startswith("self._toc[") for t in n.targets)) \
+                    or (isinstance(n, ast.Call) and norm(n.func) in ("self._toc.pop", "self._toc.popitem")) \
+                    or (isinstance(n, ast.Assign) and any(norm(t).startswith("self._toc[") for t in n.targets)):
+                raise AnalysisError("map_blocks: index entries are taken back / replaced after the scan loop (enter first, correct afterwards): this idiom is not decided")
+
+
 def scan_facts(prog, mapb, nfields):
+    refuse_compensation(mapb)
     loops = [s for s in mapb.node.body if isinstance(s, ast.While)]
     if len(loops) != 1:
         raise AnalysisError("map_blocks: expected exactly one scan loop (while) at the top level")
@@ -245,7 +262,10 @@ def truncate_facts(prog, mapb, nfields):
                 # _eof not stored yet: compare with the value the later store uses
                 later = [x for s in after for x in walk_no_nested(s) if isinstance(x, ast.Assign) and "self._eof" in stored_paths(x)]
                 eof = it.ev(later[-1].value) if later else None
-            if not (isinstance(arg, Aff) and isinstance(eof, Aff) and arg == eof):
+            if not (isinstance(arg, Aff) and isinstance(eof, Aff)):
+                # an offset the analysis cannot follow (e.g. read back from the index: `self._toc[last].end`) is not a wrong offset
+                raise AnalysisError(f"map_blocks: the truncation offset `{short(c.args[0], 40)}` / the value that becomes _eof is not an offset the analysis can follow")
+            if not (arg == eof):
                 out.append(Fact(False, c, "", f"the stream is cut at `{short(c.args[0], 40)}`, which is not the offset that becomes _eof (the end of the last complete record): committed records may be cut"))
                 continue
             conds = path_conditions(mapb.node, c)
